@@ -319,7 +319,13 @@ func ruleR03b(c *Ctx) {
 			continue
 		}
 		c.seen("soyhtml." + fn.Name())
-		san := htmlSanitizers
+		san := map[string]bool{}
+		for k := range htmlSanitizers {
+			san[k] = true
+		}
+		for k := range escaperWrappers(c) {
+			san[k] = true
+		}
 		if strings.HasPrefix(cls, "encoding:") {
 			san = map[string]bool{strings.SplitN(cls[len("encoding:"):], ":", 2)[0]: true}
 		}
@@ -694,4 +700,304 @@ func ruleR03f(c *Ctx) {
 		return true
 	})
 	c.floor("R03f", "template registrations", 1, n)
+}
+
+// R03g: every write of the escaper's input, whole or in part, is either one of the scan loop's own writes
+// (the run between two replaced characters: str[last:i], str[last:]) or guarded by a character-set test
+// that names every character the scan replaces. A fast path whose set is smaller lets the rest through raw.
+func ruleR03g(c *Ctx) {
+	p := c.pkg("soyhtml")
+	fd, sw := findEscaper(c)
+	if p == nil || fd == nil {
+		return
+	}
+	info := p.TypesInfo
+	var input types.Object
+	for _, fl := range fd.Type.Params.List {
+		for _, nm := range fl.Names {
+			if o := info.Defs[nm]; o != nil {
+				if b, ok := o.Type().Underlying().(*types.Basic); ok && b.Info()&types.IsString != 0 {
+					input = o
+				}
+			}
+		}
+	}
+	if input == nil {
+		c.fatalf("anchor: the escaper has no string parameter")
+		return
+	}
+	specials := ""
+	for _, cs := range sw.Body.List {
+		for _, e := range cs.(*ast.CaseClause).List {
+			if tv := info.Types[e]; tv.Value != nil {
+				v, _ := constant.Int64Val(tv.Value)
+				specials += string(rune(v))
+			}
+		}
+	}
+	// the scan loop: the for statement containing the switch; its counter; the cursor (assigned 0 and counter+1 only)
+	var loop *ast.ForStmt
+	ast.Inspect(fd.Body, func(x ast.Node) bool {
+		if fs, ok := x.(*ast.ForStmt); ok {
+			ast.Inspect(fs.Body, func(y ast.Node) bool {
+				if y == ast.Node(sw) {
+					loop = fs
+				}
+				return true
+			})
+		}
+		return true
+	})
+	counter := ""
+	if loop != nil {
+		if inc, ok := loop.Post.(*ast.IncDecStmt); ok && inc.Tok == token.INC {
+			counter = exprKey(inc.X)
+		}
+	}
+	cursorOK := func(name string) bool {
+		good, n := true, 0
+		ast.Inspect(fd.Body, func(x ast.Node) bool {
+			as, ok := x.(*ast.AssignStmt)
+			if !ok {
+				return true
+			}
+			for i, l := range as.Lhs {
+				if exprKey(l) != name || i >= len(as.Rhs) {
+					continue
+				}
+				n++
+				r := exprKey(as.Rhs[i])
+				if r != "0" && r != counter+" + 1" {
+					good = false
+				}
+			}
+			return true
+		})
+		return good && n >= 2 && counter != ""
+	}
+	mentions := func(e ast.Expr) bool {
+		found := false
+		ast.Inspect(e, func(x ast.Node) bool {
+			if id, ok := x.(*ast.Ident); ok && info.Uses[id] == input {
+				found = true
+			}
+			return true
+		})
+		return found
+	}
+	// walk with the stack of enclosing ifs
+	var stack []ast.Node
+	nw := 0
+	ast.Inspect(fd.Body, func(x ast.Node) bool {
+		if x == nil {
+			stack = stack[:len(stack)-1]
+			return true
+		}
+		stack = append(stack, x)
+		call, ok := x.(*ast.CallExpr)
+		if !ok {
+			return true
+		}
+		if id, ok := call.Fun.(*ast.Ident); ok {
+			if _, isBuiltin := info.Uses[id].(*types.Builtin); isBuiltin {
+				return true
+			}
+		}
+		cal := calleeFunc(call, info)
+		if cal != nil && cal.Pkg() != nil && cal.Pkg().Path() == "strings" {
+			return true // tests, not writes
+		}
+		for _, a := range call.Args {
+			if !mentions(a) {
+				continue
+			}
+			nw++
+			key := "soyhtml.htmlEscaper writes-input#" + itoa(nw)
+			// scan write?
+			if se, ok := ast.Unparen(a).(*ast.SliceExpr); ok && loop != nil {
+				if id, ok := ast.Unparen(se.X).(*ast.Ident); ok && info.Uses[id] == input && se.Low != nil && cursorOK(exprKey(se.Low)) &&
+					(se.High == nil || exprKey(se.High) == counter) {
+					c.ok("R03g", key, call.Pos(), "the scan loop's own write of the run since the last replaced character")
+					continue
+				}
+			}
+			// guarded by a complete character-set test?
+			guarded, set := false, ""
+			for i := len(stack) - 2; i >= 0; i-- {
+				ifs, ok := stack[i].(*ast.IfStmt)
+				if !ok {
+					continue
+				}
+				inThen := false
+				ast.Inspect(ifs.Body, func(y ast.Node) bool {
+					if y == ast.Node(call) {
+						inThen = true
+					}
+					return true
+				})
+				if !inThen {
+					continue
+				}
+				if s, ok := absentSetTest(ifs.Cond, input, info); ok {
+					set = s
+					guarded = true
+					for _, ch := range specials {
+						if !strings.ContainsRune(s, ch) {
+							guarded = false
+						}
+					}
+				}
+			}
+			switch {
+			case guarded:
+				c.ok("R03g", key, call.Pos(), "guarded by a test that the input holds none of "+fmt.Sprintf("%q", specials))
+			case set != "":
+				c.bad("R03g", key, call.Pos(), fmt.Sprintf("the input is written unescaped when it holds none of %q, but the escaper replaces %q: the characters missing from the test reach the output raw", set, specials))
+			default:
+				c.bad("R03g", key, call.Pos(), "the input ("+exprKey(a)+") is written outside the scan loop's own writes and without a test that it holds no special character")
+			}
+		}
+		return true
+	})
+	c.floor("R03g", "writes of the escaper's input", 2, nw)
+}
+
+// absentSetTest recognises !strings.ContainsAny(x, S), strings.IndexAny(x, S) < 0 / == -1 and returns S.
+func absentSetTest(cond ast.Expr, input types.Object, info *types.Info) (string, bool) {
+	cond = ast.Unparen(cond)
+	setOf := func(e ast.Expr, fn string) (string, bool) {
+		call, ok := ast.Unparen(e).(*ast.CallExpr)
+		if !ok || len(call.Args) != 2 {
+			return "", false
+		}
+		cal := calleeFunc(call, info)
+		if cal == nil || cal.Pkg() == nil || cal.Pkg().Path() != "strings" || cal.Name() != fn {
+			return "", false
+		}
+		if id, ok := ast.Unparen(call.Args[0]).(*ast.Ident); !ok || info.Uses[id] != input {
+			return "", false
+		}
+		tv := info.Types[call.Args[1]]
+		if tv.Value == nil || tv.Value.Kind() != constant.String {
+			return "", false
+		}
+		return constant.StringVal(tv.Value), true
+	}
+	if ue, ok := cond.(*ast.UnaryExpr); ok && ue.Op == token.NOT {
+		return setOf(ue.X, "ContainsAny")
+	}
+	if be, ok := cond.(*ast.BinaryExpr); ok {
+		k := exprKey(be.Y)
+		if (be.Op == token.LSS && k == "0") || (be.Op == token.EQL && k == "-1") {
+			return setOf(be.X, "IndexAny")
+		}
+	}
+	return "", false
+}
+
+// escaperWrappers: functions of soyhtml proven to return exactly what the module's own escaper (R03c, R03g)
+// writes for their string argument: one string parameter, a local bytes.Buffer handed to the escaper
+// together with the parameter, every return is that buffer's String(), and neither is used otherwise.
+// Keys are SSA function names (as calleeName gives them).
+func escaperWrappers(c *Ctx) map[string]bool {
+	if c.escWrap != nil {
+		return c.escWrap
+	}
+	out := map[string]bool{}
+	c.escWrap = out
+	p := c.pkg("soyhtml")
+	esc, _ := findEscaper(c)
+	if p == nil || esc == nil {
+		return out
+	}
+	info := p.TypesInfo
+	escFn, _ := info.Defs[esc.Name].(*types.Func)
+	for _, fd := range c.allFuncDecls("soyhtml") {
+		if fd == esc || fd.Recv != nil || fd.Type.Params.NumFields() != 1 || fd.Type.Results == nil || fd.Type.Results.NumFields() != 1 {
+			continue
+		}
+		var param types.Object
+		for _, nm := range fd.Type.Params.List[0].Names {
+			param = info.Defs[nm]
+		}
+		if param == nil {
+			continue
+		}
+		if b, ok := param.Type().Underlying().(*types.Basic); !ok || b.Info()&types.IsString == 0 {
+			continue
+		}
+		// the escaper call
+		var buf types.Object
+		calls := 0
+		ast.Inspect(fd.Body, func(x ast.Node) bool {
+			call, ok := x.(*ast.CallExpr)
+			if !ok || calleeFunc(call, info) != escFn || len(call.Args) != 2 {
+				return true
+			}
+			calls++
+			if ue, ok := ast.Unparen(call.Args[0]).(*ast.UnaryExpr); ok && ue.Op == token.AND {
+				if id, ok := ast.Unparen(ue.X).(*ast.Ident); ok {
+					if pid, ok := ast.Unparen(call.Args[1]).(*ast.Ident); ok && info.Uses[pid] == param {
+						buf = info.Uses[id]
+					}
+				}
+			}
+			return true
+		})
+		if calls != 1 || buf == nil {
+			continue
+		}
+		if _, tn, _ := pkgAndName(buf.Type()); tn != "bytes.Buffer" {
+			continue
+		}
+		good := true
+		bufUses, paramUses, rets := 0, 0, 0
+		ast.Inspect(fd.Body, func(x ast.Node) bool {
+			switch n := x.(type) {
+			case *ast.Ident:
+				if info.Uses[n] == buf {
+					bufUses++
+				}
+				if info.Uses[n] == param {
+					paramUses++
+				}
+			case *ast.ReturnStmt:
+				rets++
+				ok := false
+				if len(n.Results) == 1 {
+					if call, isCall := ast.Unparen(n.Results[0]).(*ast.CallExpr); isCall && len(call.Args) == 0 {
+						if se, isSel := call.Fun.(*ast.SelectorExpr); isSel && se.Sel.Name == "String" {
+							if id, isID := ast.Unparen(se.X).(*ast.Ident); isID && info.Uses[id] == buf {
+								ok = true
+							}
+						}
+					}
+				}
+				if !ok {
+					good = false
+				}
+			}
+			return true
+		})
+		if good && rets > 0 && paramUses == 1 && bufUses == 1+rets {
+			if fn := c.SSA["soyhtml"]; fn != nil {
+				if f := fn.Func(fd.Name.Name); f != nil {
+					out[f.String()] = true
+					c.ok("R03h", "soyhtml."+fd.Name.Name+" escaper-wrapper", fd.Pos(), "returns exactly what the escaper writes for its argument (fresh buffer, no other use of either)")
+				}
+			}
+		}
+	}
+	return out
+}
+
+func pkgAndName(t types.Type) (string, string, bool) {
+	if p, ok := t.(*types.Pointer); ok {
+		t = p.Elem()
+	}
+	n, ok := t.(*types.Named)
+	if !ok || n.Obj().Pkg() == nil {
+		return "", "", false
+	}
+	return n.Obj().Pkg().Path(), n.Obj().Pkg().Name() + "." + n.Obj().Name(), true
 }
